@@ -41,6 +41,11 @@ pub fn image(journal: &[Ev], cp: &CrashPoint) -> Tree {
             });
         }
     }
+    if cp.lose_dirents > 0 {
+        let mut rng = Rng::new(cp.tail_seed ^ 0xD12E);
+        let all = cp.lose_dirents == 1;
+        t.lose_volatile_entries(|_| all || rng.chance(1, 2));
+    }
     if cp.lose_unsynced {
         // bytes after a file's last sync may be cut back to any length >= the synced length
         let mut rng = Rng::new(cp.tail_seed);
@@ -238,12 +243,19 @@ pub async fn run(cx: &mut Ctx) {
                     } else {
                         None
                     };
+                    // with the un-synced tails, sometimes also the un-synced directory entries
+                    let lose_dirents = if lose && cx.case.param("dirents", 1) == 1 {
+                        *rng.pick(&[0u8, 0, 1, 2])
+                    } else {
+                        0
+                    };
                     points.push(CrashPoint {
                         k,
                         torn: t,
                         lose_unsynced: lose,
                         tail_seed: rng.next(),
                         second,
+                        lose_dirents,
                     });
                 }
             }
@@ -303,7 +315,12 @@ pub async fn run(cx: &mut Ctx) {
             "crash@{}{}{} of {n} ({})",
             cp.k,
             cp.torn.map(|t| format!("+{t}B")).unwrap_or_default(),
-            if cp.lose_unsynced { " lose-unsynced" } else { "" },
+            match (cp.lose_unsynced, cp.lose_dirents) {
+                (_, 1) => " lose-unsynced+dirents",
+                (_, 2) => " lose-unsynced+some-dirents",
+                (true, _) => " lose-unsynced",
+                _ => "",
+            },
             rec.journal.get(cp.k).map(|e| e.brief()).unwrap_or_else(|| "end".into())
         );
         *cx
@@ -313,7 +330,11 @@ pub async fn run(cx: &mut Ctx) {
                 "crash:{}{}{}",
                 rec.journal.get(cp.k).map(|e| e.kind()).unwrap_or("end"),
                 if cp.torn.is_some() { ":torn" } else { "" },
-                if cp.lose_unsynced { ":lose-unsynced" } else { "" }
+                match (cp.lose_unsynced, cp.lose_dirents) {
+                    (_, 1 | 2) => ":lose-unsynced+dirents",
+                    (true, _) => ":lose-unsynced",
+                    _ => "",
+                }
             ))
             .or_default() += 1;
 
